@@ -135,7 +135,7 @@ def mk(label, **cfg):
     a = {"w": 64, "h": 64, "n": N, "enc_mode": 8, "hierarchical_levels": HL, "intra_period_length": 16}
     a.update(cfg)
     if int(a.get("rate_control_mode", 0)) == 2:
-        a["look_ahead_distance"] = 16  # set_parameter demands look_ahead_distance == intra_period_length for CVBR
+        a["look_ahead_distance"] = int(a["intra_period_length"])  # set_parameter demands look_ahead_distance == intra_period_length for CVBR
     return (label + "/" + a["content"], a)
 
 
@@ -161,6 +161,12 @@ def cases_for(tier):
     for mode, (lo, hi), tbr, tpl, c, qp in itertools.product((1, 2), BOUNDS, TBR, (0, 1), CONTENTS, (30,) if q else QPS):
         cs.append(mk("rc=%d,min=%d,max=%d,tbr=%d,tpl=%d,qp=%d" % (mode, lo, hi, tbr, tpl, qp), rate_control_mode=mode,
                      min_qp_allowed=lo, max_qp_allowed=hi, target_bit_rate=tbr, enable_tpl_la=tpl, content=c, qp=qp))
+    # A+: several GOPs (the rate control's state carried from GOP to GOP: refinement against the previous GOP's first frame, buffer
+    # feedback): 4..5 intra periods, bounds pinned by a starving / lavish bit budget
+    for mode, (lo, hi), tbr, c, (w, h) in itertools.product((1, 2), ((10, 40), (20, 20), (0, 0), (62, 63), (30, 31)), TBR, ("noise", "flat") if q else CONTENTS,
+                                                             ((64, 64), (256, 128))):
+        cs.append(mk("gops:rc=%d,min=%d,max=%d,tbr=%d,%dx%d" % (mode, lo, hi, tbr, w, h), rate_control_mode=mode, min_qp_allowed=lo,
+                     max_qp_allowed=hi, target_bit_rate=tbr, content=c, qp=30, w=w, h=h, n=65 if q else 81, intra_period_length=15))
     # A': rate control with the fixed-offset switch on (offsets are documented for mode 0 only: bounds still demanded)
     if not q:
         for mode, (lo, hi), tbr, tpl, c, v in itertools.product((1, 2), BOUNDS, TBR, (0, 1), ("noise", "flat"), (255, -256)):
@@ -184,6 +190,7 @@ def cases_for(tier):
 
 RULE = ("encdrv sessions 64x64, 17 pictures, hierarchical_levels 3, intra period 16, preset 8: "
         "A) rate_control_mode {1,2} x (min_qp,max_qp) in %s x target_bit_rate {50000,7000000} x enable_tpl_la {0,1} x content {flat,noise,box} x qp %%s; "
+        "A+) rate_control_mode {1,2} x bounds {(10,40),(20,20),(0,0),(62,63),(30,31)} x both bit rates x sizes {64x64,256x128} with intra period 15 over 65 (quick) / 81 pictures; "
         "%%s"
         "B) rate_control_mode 0 (QP scaling) x the same bounds x qp %%s x enable_tpl_la %%s x content %%s; "
         "C) rate_control_mode 0, use_fixed_qindex_offsets=1 x 26 offset patterns (each of key/L0..L3/all deviating by one of {+40,-40,+255,-256}; "
